@@ -35,6 +35,10 @@ type interp struct {
 	match func(atom string, a asg) (bool, bool)
 	// expand: optional; atoms (calls of unexported helpers) to expand although match claims them
 	expand func(atom string) bool
+	// free: optional; atoms the rule does not know but accepts as independent inputs of the
+	// decision (e.g. a test of another field of the same record): they are enumerated over
+	// true/false, and the specification's outcome must hold for both
+	free func(atom string) bool
 }
 
 func parseEq(atom string) (lhs, rhs string, ok bool) {
@@ -239,6 +243,30 @@ func compareTable(c *fw.Ctx, rule, what string, fn *ssa.Function, resIdx int, va
 	})
 	t.SplitBoolValues(func(atom string) bool { _, ok := env0(atom); return ok })
 	c.SawFn(fw.FuncName(fn))
+	if ip.free != nil {
+		freeNames := map[string]string{}
+		for _, a := range t.Atoms() {
+			if _, ok := env0(a); !ok && ip.free(a) {
+				name := fmt.Sprintf("free%d", len(freeNames)+1)
+				freeNames[a] = name
+				vars = append(vars, tvar{name, []string{"true", "false"}})
+			}
+		}
+		if len(freeNames) > 0 {
+			cp := *ip
+			prev := ip.match
+			cp.match = func(atom string, a asg) (bool, bool) {
+				if n, ok := freeNames[atom]; ok {
+					return a[n] == "true", true
+				}
+				if prev != nil {
+					return prev(atom, a)
+				}
+				return false, false
+			}
+			ip = &cp
+		}
+	}
 	mismatches := map[string]string{} // construct -> detail (deduplicated by code row + expectation)
 	unknown := map[string]bool{}
 	notUnderstood := map[string]bool{}
@@ -335,4 +363,30 @@ func evalDNF(d fw.DNF, env fw.Env, unknown map[string]bool) bool {
 		}
 	}
 	return false
+}
+
+// trueDNF: the condition (from the entry of fn) under which the boolean value v, used in block
+// `at`, is true: constant alternatives of `a && b` / `a || b` phis contribute their edge
+// condition, a non-constant alternative contributes its edge condition and itself as an atom.
+func trueDNF(fn *ssa.Function, v ssa.Value, at *ssa.BasicBlock) (fw.DNF, error) {
+	rows, err := fw.ValueRows(fn, v, at)
+	if err != nil {
+		return nil, err
+	}
+	var out fw.DNF
+	for _, r := range rows {
+		if cst, isC := r.Val.(*ssa.Const); isC {
+			if cst.Value != nil && cst.Value.String() == "true" {
+				out = append(out, r.Cond...)
+			}
+			continue
+		}
+		cv, neg := fw.BoolCond(r.Val)
+		for _, term := range r.Cond {
+			t := append(fw.Term{}, term...)
+			t = append(t, fw.Lit{Atom: fw.Sig(cv), Pos: !neg})
+			out = append(out, t)
+		}
+	}
+	return out, nil
 }
